@@ -315,6 +315,32 @@ func TestC17(t *testing.T) {
 					}
 				}
 			},
+			// signatures that arrive later: an attestation form opened earlier (whose prover may have been dropped, and its slot
+			// taken by somebody else, in the meantime) gets further signatures now
+			"lateSignatures": func(rt *rapid.T) {
+				forms := w.c.App.StorageKeeper.GetAllAttestation(w.f.Ctx)
+				if len(forms) == 0 {
+					rt.Skip()
+				}
+				fm := forms[rapid.IntRange(0, len(forms)-1).Draw(rt, "form")]
+				for _, s := range w.provs {
+					if rapid.IntRange(0, 2).Draw(rt, "signs") > 0 {
+						r := w.f.Exec(storagetypes.NewMsgAttest(s.Bech, fm.Prover, fm.Merkle, fm.Owner, fm.Start))
+						w.logf("late attestation by %s about %s -> %s", short(s.Bech), short(fm.Prover), r)
+					}
+				}
+				w.syncPairs(w.snapshot())
+			},
+			"requestOnly": func(rt *rapid.T) { // a form is opened and (for now) signed by at most one provider
+				f := drawFile(rt)
+				p := drawProv(rt)
+				res := w.f.Exec(storagetypes.NewMsgRequestAttestationForm(p.Bech, f.Merkle, f.Owner, f.Start))
+				w.logf("request attestation by %s for %s -> %s (signatures come later)", short(p.Bech), f.id(), res)
+				if rapid.Bool().Draw(rt, "oneSignature") {
+					s := drawProv(rt)
+					w.f.Exec(storagetypes.NewMsgAttest(s.Bech, p.Bech, f.Merkle, f.Owner, f.Start))
+				}
+			},
 			"reportFlow": func(rt *rapid.T) {
 				f := drawFile(rt)
 				p := drawProv(rt)
